@@ -99,6 +99,10 @@ func Harness_C09_WithdrawStep() {
 // withdrawal (refunds and user withdrawals share the counter).
 func Harness_C09_SupplyAndMappingFrame() {
 	stdBounds()
+	// the mint and the transfer to the recipient may fail or panic (recipient-side logic): supply conservation
+	// must hold on those paths too
+	verifConfig("fault:MintCoins", 1)
+	verifConfig("fault:SendCoinsFromModuleToAccount", 1)
 	k, ms, ctx := setup()
 	d := verifSymStr("obsDenom")
 	sup0 := k.sup(ctx, d)
@@ -151,8 +155,8 @@ func Harness_C09_SupplyAndMappingFrame() {
 func Harness_C09_WithdrawalInsideHook() {
 	paramsBounds()
 	verifConfig("len:BridgeExecutors", 1)
-	verifConfig("hook.clean", 1) // bound: the hook transaction decodes, passes the ante chain and carries exactly the withdrawal
-	verifConfig("hookmsgs", 1)
+	verifConfig("hook.clean", 1) // bound: the hook transaction decodes, passes the ante chain; its first message is the withdrawal,
+	verifConfig("hookmsgs", 2)   // followed by one arbitrary message of another module (which may fail, panic, run out of gas)
 	k, ms, ctx := setup()
 	req := symFinalizeDeposit()
 	wd := &types.MsgInitiateTokenWithdrawal{Sender: verifSymStr("wd.sender"), To: verifSymStr("wd.to"),
